@@ -42,6 +42,8 @@ def gen_table(rng, ncols=None, nrows=None, shape=None, exotic_names=True):
             cname = rng.choice(["X\x0c0", "X\x850", "X\u20280", "X\x0b0", "X 0", "X\x1c0"])
         cols[cname] = {"data": data, "integer": integer}
     t = {"cols": cols, "nrows": nrows, "missing": missing, "file": "in.csv"}
+    if shape is None and nrows >= 2 and rng.random() < 0.12:
+        t["blank_before"] = sorted(set(rng.randint(1, nrows - 1) for _ in range(rng.randint(1, 2))))
     if shape is not None and cols and rng.random() < 0.6:
         # a non-negative column (NetCDF 'Positive *' reads)
         c0 = cols[sorted(cols)[0]]
@@ -81,6 +83,8 @@ def write_table(table, d):
     with open(path, "w") as f:
         f.write(",".join(names) + "\n")
         for r in range(table["nrows"]):
+            if r in (table.get("blank_before") or ()):
+                f.write("\n")          # an empty line between two records (skipped by the reader)
             f.write(",".join(repr(table["cols"][n]["data"][r]) for n in names) + "\n")
     return path
 
